@@ -10,7 +10,7 @@
 import json
 from copy import copy
 from collections.abc import Iterator, Iterable
-from decimal import Decimal, ROUND_UP
+from decimal import Decimal
 from types import ModuleType
 from typing import cast, Any, Optional, Union
 from xml.etree import ElementTree
@@ -403,7 +403,7 @@ def serialize_to_json(elements: Iterable[Any],
             elif isinstance(obj, (AbstractBinary, AbstractDateTime, AnyURI, UntypedAtomic)):
                 return str(obj)
             elif isinstance(obj, Decimal):
-                return float(Decimal(obj).quantize(Decimal("0.01"), ROUND_UP))
+                return float(obj)  # the JSON output method writes numeric values as xs:double
             elif isinstance(obj, list):
                 return [v for v in obj]
             else:
